@@ -50,6 +50,12 @@ func runC07(p *load.Program, r *core.Report) {
 	c07Reply(a, r)
 	c07Handover(a, r)
 	c07Channel(a, r, wait)
+	// Q6: a forwarded request reaches one responder only (pool dispatcher)
+	if fwd := p.Func("act", "Pool", "forward"); fwd != nil {
+		poolSingleHandover(p, r, "C07.Q6 one-responder", fwd)
+	} else {
+		r.Unk("C07.Q6 one-responder", "C07.Q6|forward", "", "", "Pool.forward found", "not found")
+	}
 }
 
 // refOrigin: does v derive from a MakeRef call? returns the call.
